@@ -21,6 +21,9 @@ Remove(i0)         == items' = IF i0 >= 0 /\ i0 < Len(items) THEN Without(i0 + 1
 RemoveByName(k)    == items' = IF Hits(k) = {} THEN items ELSE Without(First(Hits(k)))
 Clear              == items' = <<>>
 ClearValues        == items' = [i \in 1 .. Len(items) |-> <<items[i][1], items[i][2], items[i][3], TRUE>>]
+\* the value belongs to the entry OBJECT: an object that was added twice shows it at both of its positions
 SetValue(k)        == items' = [i \in 1 .. Len(items) |->
-                           IF Hits(k) # {} /\ i = First(Hits(k)) THEN <<items[i][1], items[i][2], items[i][3], FALSE>> ELSE items[i]]
+                           IF Hits(k) # {} /\ items[i][3] = items[First(Hits(k))][3] THEN <<items[i][1], items[i][2], items[i][3], FALSE>> ELSE items[i]]
+\* the object at position i0 is added once more: a collection is a list, the object then occurs twice
+AddAgain(i0)       == items' = IF i0 >= 0 /\ i0 < Len(items) THEN Append(items, items[i0 + 1]) ELSE items
 =============================================================================
